@@ -21,6 +21,12 @@ from drivers import c04
 CAP = 10 ** 9
 OUTDIM = {"act3": lambda ty: 3, "act4": lambda ty: 4, "tensor": lambda ty: L.ADIM[ty],
           "matrix": lambda ty: 9 if ty == "SO3" else 16}
+
+
+def outdim(prog, ty):
+    if prog["op"] == "vadd":          # sum of two vector-valued sub-programs (c04 grammar)
+        return outdim(prog["a"], ty)
+    return OUTDIM[prog["op"]](ty)
 KDIM = lambda ty, kind, n=3: {"G": L.GDIM[ty], "A": L.ADIM[ty]}.get(kind, n)
 TDIM = lambda ty, kind, n=3: {"G": L.ADIM[ty], "A": L.ADIM[ty]}.get(kind, n)
 
@@ -200,7 +206,7 @@ class ModelGen:
                 prog = g.program(rng.randint(1, self.maxd))
                 if len(set(c04._inputs(prog))) == len(g.vals):
                     break
-            R = OUTDIM[prog["op"]](ty)
+            R = outdim(prog, ty)
             if R > 7 and prod(bshape) > 2 and not self.bshapes:
                 bshape = rng.choice([(), (2,)])
             n_in = len(g.sorts)
@@ -951,7 +957,10 @@ def run_e2e(ctx, g, opt, dtype, cfg):
         if opt == "GN":
             o = pp.optim.GN(model, weight=weight)
         else:
-            o = pp.optim.LM(model, strategy=make_strategy(pp, cfg["strategy"]), weight=weight, reject=0, min=cfg["mn"], max=cfg["mx"])
+            S = pp.optim.solver
+            solver = {"default": None, "chol_upper": S.Cholesky(upper=True), "pinv": S.PINV(), "lstsq": S.LSTSQ()}[cfg.get("solver", "default")]
+            o = pp.optim.LM(model, solver=solver, strategy=make_strategy(pp, cfg["strategy"]), weight=weight, reject=0,
+                            min=cfg["mn"], max=cfg["mx"])
         o.step(inp, target=target) if target is not None else o.step(inp)
     except Exception as ex:
         out2, meta["raised2"] = "raise", repr(ex)[:300]
@@ -1250,9 +1259,11 @@ def run(ctx):
             cfg = gn_cfg(rng, g) if opt == "GN" else lm_cfg(rng, g, str(dtype).split(".")[1], rej=0)
             if opt == "LM":
                 lam = rng.choice([0.5, 1.0, 2.0])
-                cfg.update(mx=2.0 ** 20, strategy=dict(kind="constant", damping=lam))
+                # the damped matrix is symmetric positive definite: every built-in direct solver must solve it
+                cfg.update(mx=2.0 ** 20, strategy=dict(kind="constant", damping=lam),
+                           solver=["default", "chol_upper", "default", "pinv", "lstsq", "chol_upper"][i % 6])
             ev, meta = run_e2e(ctx, g, opt, dtype, cfg)
-            batch.add(ev, meta, "e2e%d/%s" % (i, opt))
+            batch.add(ev, meta, "e2e%d/%s%s" % (i, opt, "/" + cfg["solver"] if cfg.get("solver", "default") != "default" else ""))
             emeas = [max(a, b) for a, b in zip(emeas, meta.get("measures", [0, 0, 0]))]
             ctx.cover(json.dumps(["e2e", opt, meta["cls"]["kinds"], meta.get("rank_deficiency", -1) > 0, str(dtype)]))
     ctx.extra["e2e_max_ulps(normal_eq, null, lm_residual)"] = emeas
